@@ -77,7 +77,7 @@ var props = map[string]propSpec{
 	},
 	"C06": {
 		QuickShards: 8, ThoroughShards: 16,
-		Rule:        "rapid draws 128-bit patterns (uniform, structured finite with every coefficient length and trailing-zero run, values whose leading-digit exponent is around the -4/6 switch, zeros, specials); String, MarshalText, %v, fmt.Sprint, Decimal.Append(nil or prefix, "v"), Format/Append('g'/'G',-1), ('e'/'E',-1) and ('f',-1) are compared byte for byte with strings constructed from the decoded (digits, exponent) by the rule the statement gives, re-read by an independent numeral evaluator, and round-tripped through Parse, UnmarshalText and fmt.Sscan (Equal, same sign; class for NaN/Inf). 'f' at |exponent| >= 300 is sampled at 1/50. Non-trivial = at least two significant digits; distinct = distinct pattern.",
+		Rule:        "rapid draws 128-bit patterns (uniform, structured finite with every coefficient length and trailing-zero run, values whose leading-digit exponent is around the -4/6 switch, zeros, specials); String, MarshalText, %v, fmt.Sprint, Decimal.Append(nil or prefix, \"v\"), Format/Append('g'/'G',-1), ('e'/'E',-1) and ('f',-1) are compared byte for byte with strings constructed from the decoded (digits, exponent) by the rule the statement gives, re-read by an independent numeral evaluator, and round-tripped through Parse, UnmarshalText and fmt.Sscan (Equal, same sign; class for NaN/Inf). 'f' at |exponent| >= 300 is sampled at 1/50. Non-trivial = at least two significant digits; distinct = distinct pattern.",
 		Assumptions: commonAssumptions,
 	},
 	"C07": {
